@@ -544,6 +544,7 @@ def run(ctx):  # noqa: C901, PLR0912, PLR0915
 
     from . import common
     common.index_lists_not_mutated_while_iterated(ctx, 'C02.R4')
+    common.copies_are_deep(ctx, 'C02.R2')   # published content changes only through a commit that counts the versions up
     # ------------------------------------------------------------ R5 single writer
     regs = [w for w in yields[0].withs]
     held = [unparse(i.context_expr) for w in regs for i in w.items]
